@@ -53,6 +53,8 @@ SEP = [
     "`ifdef A\n`else// c\nq`endif r\n", "`timescale 1ns/1ps// c\nx\n", "`celldefine/* c */x\n",
     "`define M(a) a/**/a\n`M(p)\n`M(/**/q)\n", "`define N x //tail\n`N y\n", "a`__LINE__/**/b\n",
     "`include \"i.svh\"// c\nx/**/y\n", "a// c\r\nb\n",
+    # a one-line comment ends at the end of its line, whatever its last character is
+    "x // path C:\\dir\\\nwire keep_me ;\n", "x // c \\\r\nwire keep_me ;\n", "// \\\n`define K 1\n`K\n", "y /* c \\*/ z // d\\\\\nw\n",
     # comments inside (multi-line) actual arguments
     "`define ADD(a,b) a + b ;\n`ADD(1,\n  // second\n  2)\n", "`define ADD(a,b) a + b ;\n`ADD(1 /* one */,\n  2 // two\n)\nq\n",
     "`define ID(x) x\nwire `ID(w // name\n) ;\n", "`define P(a,b,c) a b c\n`P(x,// c1\ny,// c2\nz)\n", "`define ID(x) x\n`ID(/* a */ p /* b */)\n", "a/* \n */b\n", "/**/a\n", "a/**/", "a// c",
@@ -97,7 +99,8 @@ def check(ctx):
         if off.defs != on.defs:
             bad = bad or (pc, "define tables differ with strip_comments"); continue
         src = "".join(pc.files.values())
-        d6 = c06.in_D6(src) or '"' in src or "\\" in src
+        oc = re.sub(r"//[^\n]*|/\*.*?\*/", " ", src, flags=re.S)       # quotes and backslashes INSIDE comments are no strings
+        d6 = c06.in_D6(src) or '"' in oc or "\\" in oc
         a, b = tokens(off.text), tokens(on.text)
         if a != b:
             k = next((j for j, (x, y) in enumerate(zip(a + [None] * len(b), b + [None] * len(a))) if x != y), 0)
@@ -118,6 +121,21 @@ def check(ctx):
         r0, r1 = ppx.Res(im.get(cs[0].id)), ppx.Res(im.get(cs[1].id))
         if r0.ok != r1.ok:
             ctx.known_printed.append("include-macro-comment")
+    newline_known(ctx)
+
+
+def newline_known(ctx):
+    findings, _ = load_known()
+    if not any(f.get("property") == "C18" and f.get("id") == "include-macro-newline" for f in findings):
+        return
+    import json
+    w = json.load(open(os.path.join(VERIF, "corpus", "C18-include-macro-newline.json")))
+    cs, im = ppx.run_impl([ppx.PC(w, strip=False), ppx.PC(w, strip=True)], "c18kf2")
+    r0, r1 = ppx.Res(im.get(cs[0].id)), ppx.Res(im.get(cs[1].id))
+    if r0.ok and r1.ok and tokens(r0.text) != tokens(r1.text):
+        ctx.known_printed.append("include-macro-newline")
+    else:
+        ctx.notes.append("known finding include-macro-newline no longer reproduces")
 
 
 def replay(ctx, path):
